@@ -1751,8 +1751,10 @@ def lt(left: Any, right: Any) -> bool:
     # only when left has a smaller length.
     return len(left) < len(right)
   elif isinstance(left, dict):
-    lkeys = list(left.keys())
-    rkeys = list(right.keys())
+    # Dicts are equal regardless of their key order, so they are compared in
+    # a canonical key order (int keys before str keys).
+    lkeys = sorted(left.keys(), key=dict_key_order)
+    rkeys = sorted(right.keys(), key=dict_key_order)
     min_len = min(len(lkeys), len(rkeys))
     for i in range(min_len):
       kl, kr = lkeys[i], rkeys[i]
@@ -1760,7 +1762,7 @@ def lt(left: Any, right: Any) -> bool:
         if not eq(left[kl], right[kr]):
           return lt(left[kl], right[kr])
       else:
-        return kl < kr
+        return dict_key_order(kl) < dict_key_order(kr)
     # `left` and `right` are equal so far, so `left is less than `right`
     # only when left has fewer keys.
     return len(lkeys) < len(rkeys)
@@ -1782,6 +1784,11 @@ def gt(left: Any, right: Any) -> bool:
     True if the left value is symbolically greater than the right value.
   """
   return lt(right, left)   # pylint: disable=arguments-out-of-order
+
+
+def dict_key_order(key: Union[str, int]) -> Tuple[bool, Union[str, int]]:
+  """Returns a sorting key for dict keys of mixed int and str types."""
+  return (isinstance(key, str), key)
 
 
 def _type_order(value: Any) -> str:
